@@ -1,7 +1,7 @@
 (* C17 — hashing is Keccak-256 with the original (pre-SHA-3) padding; hash-to-scalar reduces modulo l.
    Statements only (pinned by Check), `exact` proofs and assumption audits.  Keccak-f[1600] of Model/Keccak.v is the
    reference itself (validated by the known-answer Examples below and by the correspondence check). *)
-From MRS Require Import Proofs.KeccakProofs.
+From MRS Require Import Proofs.KeccakProofs Proofs.KeccakBounds.
 From Coq Require Import String.
 Open Scope N_scope.
 
@@ -48,6 +48,14 @@ Theorem C17_block_lanes : forall blk, List.length blk = 136%nat ->
   List.length (lanes_of_bytes 17 blk) = 17%nat /\
   forall extra, lanes_of_bytes (17 + extra) blk = lanes_of_bytes 17 blk.
 Proof. exact lanes_of_block. Qed.
+
+(* every lane of the final state is below 2^64 (rotations and complements never leave 64 bits), so the digest is the exact
+   little-endian image of the first four lanes *)
+Theorem C17_state_lanes_64bit : forall m, exists st,
+  List.length st = 25%nat /\ Forall (fun x => x < 2 ^ 64) st /\
+  keccak256 m = flat_map (n2le 8) (firstn 4 st) /\
+  Forall (fun x => le2n (n2le 8 x) = x) st.
+Proof. exact keccak256_state. Qed.
 
 (* hash-to-scalar: the digest as little-endian integer modulo l; canonical; its 32-byte form decodes to itself *)
 Theorem C17_scalar : forall h,
@@ -106,6 +114,10 @@ Check C17_absorb_all_blocks : forall m,
 Check C17_block_lanes : forall blk, List.length blk = 136%nat ->
   List.length (lanes_of_bytes 17 blk) = 17%nat /\
   forall extra, lanes_of_bytes (17 + extra) blk = lanes_of_bytes 17 blk.
+Check C17_state_lanes_64bit : forall m, exists st,
+  List.length st = 25%nat /\ Forall (fun x => x < 2 ^ 64) st /\
+  keccak256 m = flat_map (n2le 8) (firstn 4 st) /\
+  Forall (fun x => le2n (n2le 8 x) = x) st.
 Check C17_scalar : forall h,
   h2s h = le2n h mod group_order /\ h2s h < group_order /\
   le2n (scalar_bytes (h2s h)) = h2s h /\ List.length (scalar_bytes (h2s h)) = 32%nat.
@@ -120,6 +132,7 @@ Print Assumptions C17_padded_bits_blocks.
 Print Assumptions C17_padding_is_not_sha3.
 Print Assumptions C17_absorb_all_blocks.
 Print Assumptions C17_block_lanes.
+Print Assumptions C17_state_lanes_64bit.
 Print Assumptions C17_scalar.
 Print Assumptions C17_scalar_canonical_fixed.
 Print Assumptions C17_le_roundtrip.
